@@ -2,16 +2,55 @@
 from __future__ import annotations
 
 from ..common import Ob
-from ..e2 import harness_ob, replay  # noqa: F401
+from ..e2 import harness_ob
+from ..e2 import replay as _replay_e2
+
+
+def replay(w: dict) -> dict:
+    if w.get("spec"):
+        return replay_spec_c07(w)
+    if w.get("kind"):
+        return replay_collision(w)
+    return _replay_e2(w)
 
 META = {"level": "model_checking", "assumptions": ["census on arbitrary documents is outside the claim: only the skeleton family and solver-produced colliding pairs are replayed"]}
+
+
+def _collision_doc(kind: str, a: str, b: str) -> dict:
+    from ..skeletons import INT, doc, obj
+
+    if kind == "operation":
+        mk = lambda oid: {"operationId": oid, "responses": {"204": {"description": "n"}}}  # noqa: E731
+        return doc(None, {"/one": {"get": mk(a)}, "/two": {"get": mk(b)}})
+    return doc({a: obj({"x": INT}), b: obj({"y": INT})})
+
+
+def _silently_collapsed(kind: str, a: str, b: str):
+    """Replay through the real generator: two distinct document items, fewer generated artefacts, no diagnostic."""
+    from .. import gen
+
+    root = gen.scratch("verif-col-")
+    try:
+        try:
+            errs, pdir = gen.generate(_collision_doc(kind, a, b), root, "sk_col")
+        except Exception as e:
+            return False, f"generator raised {type(e).__name__}: {e}"
+        if errs:
+            return False, f"diagnosed: {[e.detail for e in errs][:2]}"
+        if kind == "operation":
+            files = [p.name for p in (pdir / "api" / "default").glob("*.py") if p.name != "__init__.py"]
+        else:
+            files = [p.name for p in (pdir / "models").glob("*.py") if p.name != "__init__.py"]
+        return len(files) < 2, f"{kind}s {a!r} and {b!r} -> generated files {sorted(files)}, no diagnostic"
+    finally:
+        gen.cleanup(root)
 
 
 def obligations(tier: str) -> list[Ob]:
     q = tier == "quick"
     return [
         harness_ob(
-            "operation_accounting", "C07_accounting.py", tier, funcs=["accounting_tags", "accounting_presence"], timeout=240 if q else 900, cpus=2,
+            "operation_accounting", "C07_accounting.py", tier, funcs=["accounting_tags", "accounting_presence"], timeout=330 if q else 900, cpus=2,
             encoded=["openapi_python_client.parser.openapi:EndpointCollection.from_data"],
             stubs=["Endpoint.from_data -> arbitrary Endpoint | ParseError per operation (the accounting loop is the subject)"],
             bounds={"operations": 3, "tag lists": 4, "generate_all_tags": "both"},
@@ -28,4 +67,64 @@ def obligations(tier: str) -> list[Ob]:
             bounds={"dependency graph": "3 (4 thorough) nodes"},
         ),
         Ob("replay_census", "vlib.replay_checks:census", {}, timeout_s=900, engine="replay", cpus=1),
+        Ob("operation_module_collision", "vlib.props.C07:module_collision", {"kind": "operation", "n": 3, "known_key": "operation_module_collision"}, timeout_s=600, engine="E1"),
+        Ob("schema_module_collision", "vlib.props.C07:module_collision", {"kind": "schema", "n": 2, "known_key": "schema_module_collision"}, timeout_s=600, engine="E1"),
     ]
+
+
+def module_collision(kind: str = "schema", n: int = 2, tier: str = "quick", known: list | None = None, **_: object) -> dict:
+    """Two distinct document items whose generated *file names* coincide.  The pair is produced by an E1 collision query
+    on the real PythonIdentifier (two encodings, inputs a != b, equal results) — for schemas over class-name shaped
+    inputs (the ClassName of a Pascal-cased ASCII alphanumeric name is the name itself; module =
+    PythonIdentifier(ClassName(name))), for operations over ASCII operationIds — and then replayed through the real
+    generator: fewer files than items and no diagnostic."""
+    import z3
+
+    from openapi_python_client import utils
+
+    from ..bstr import core
+    from ..bstr.interp import Encoded
+    from ..bstr.validate import shadow_inputs
+    from ..common import fingerprint, result
+
+    sh = [t for t in shadow_inputs(n, 1) if len(t[0]) == n]
+    ea = Encoded(utils.PythonIdentifier, lambda i: ([i[0], "field_"], {}), n, shadow_inputs=sh, exact=True, names=["a"])
+    eb = Encoded(utils.PythonIdentifier, lambda i: ([i[0], "field_"], {}), n, shadow_inputs=sh, exact=True, names=["b"])
+    for e in (ea, eb):
+        ok, _, _ = e.check_caps()
+        if not ok:
+            return result("inconclusive", "capacity side conditions not discharged")
+    a, b = ea.inputs[0], eb.inputs[0]
+    if kind == "schema":
+        upper_first = lambda v: z3.And(core.pred(lambda c: "A" <= c <= "Z")(v.ch[0]), core.all_char(v, core.pred(lambda c: c.isascii() and c.isalnum())))  # noqa: E731
+    else:
+        upper_first = lambda v: z3.And(core.pred(lambda c: c.isascii() and c.isalpha())(v.ch[0]), core.all_char(v, core.pred(lambda c: c.isascii() and (c.isalnum() or c in "_-"))))  # noqa: E731
+    s = z3.Solver()
+    s.set("timeout", 300000)
+    s.add(*ea.base, *eb.base, upper_first(a), upper_first(b), z3.Not(core.eq(a, b)), core.eq(core.as_bstr(ea.result), core.as_bstr(eb.result)))
+    r = str(s.check())
+    funcs = [fingerprint(f) for f in ea.funcs.values()]
+    if r == "unsat":
+        return result("holds", f"unsat: no two distinct {kind} names of length {n} share a file name", queries=1, functions=funcs, cases=[f"{kind}_module_collision[n={n}]"])
+    if r != "sat":
+        return result("inconclusive", f"solver answered {r}", queries=1, functions=funcs)
+    m = s.model()
+    x, y = core.decode(m, a), core.decode(m, b)
+    if kind == "schema" and str(utils.ClassName(x, "field_")) == str(utils.ClassName(y, "field_")):
+        return result("inconclusive", f"pair {x!r}/{y!r} has equal class names (diagnosed by the duplicate-model check)", queries=1, functions=funcs)
+    bad, obs = _silently_collapsed(kind, x, y)
+    if bad and known:
+        return result("violated", f"sat: fresh witness {[x, y]} -> {obs}", known_hits=[e["id"] for e in known], queries=1, functions=funcs, samples=[{"witness": [x, y], "observed": obs}], cases=[f"{kind}_module_collision[n={n}]"])
+    wit = {"what": f"two {kind}s with different names never share one generated file without a diagnostic", "input": [x, y], "observed": obs, "reproduced": bool(bad), "replay_func": "vlib.props.C07:replay_collision", "kind": kind}
+    return result("violated", f"sat: witness {[x, y]} -> {obs}", witnesses=[wit], queries=1, functions=funcs)
+
+
+def replay_collision(w: dict) -> dict:
+    bad, obs = _silently_collapsed(w.get("kind", "schema"), *w["input"])
+    return {"reproduced": bool(bad), "observed": obs}
+
+
+def replay_spec_c07(w: dict) -> dict:
+    from ..e1 import replay_spec
+
+    return replay_spec("vlib.props.C07", w)
